@@ -3,6 +3,7 @@ import CorsVerif.Proofs.ACRH
 import CorsVerif.Proofs.Accepted
 import CorsVerif.Proofs.IxRefine
 import CorsVerif.Proofs.IxTreeRefine
+import CorsVerif.Proofs.IxPatternRefine
 import CorsVerif.Spec.Fetch
 /-
   C17 — No input can crash configuration or request handling.  (PARTIAL)
@@ -443,6 +444,21 @@ theorem C17_node_lengths (t : Node) : Ix.WFI (Ix.conc t) := Ix.WFI_conc t
 /-- **P9 (node.elems, Tree.Elems).** `n.schemes[i]` for `i` ranging over `n.ports`, `n.children[i]`; the recursion ends. -/
 theorem C17_ix_treeElems (t : Node) : Ix.treeElems (Ix.conc t) = .ok (Tree.elems t) := Ix.treeElems_refines t
 
+/-- **P9 (parseHostPattern, hostOnly).** For every input: `hostOnly`'s `hp.Value[len(subdomainWildcard)+1:]` (the two bytes
+`peekKind` saw) and the trim `pattern.Value[:end]` (the lexed host is never longer than what was lexed) are in range. -/
+theorem C17_ix_parseHostPattern (ext : Ext) (str : Bytes) :
+    Ix.parseHostPatternI ext str = .ok (parseHostPattern ext str) := Ix.parseHostPatternI_refines ext str
+/-- **P9 (hostOnly on accepted patterns).** `IsDeemedInsecure` and `HostIsEffectiveTLD` call `hostOnly` on patterns that
+`ParsePattern` returned: a subdomains pattern is `*.` + a non-empty base (P1), so the slice is in range. -/
+theorem C17_ix_hostOnly (ext : Ext) (s : Bytes) (p : Pattern) (h : parsePattern ext s = .ok p) :
+    Ix.hostOnlyI p.value p.kind = .ok (hostOnly p.value p.kind) := by
+  apply Ix.hostOnlyI_refines
+  intro hk
+  obtain ⟨base, hv, _⟩ := (C17_value_nonempty ext s p h).2 hk
+  rw [hv]; simp
+/-- **P9 (newConfig).** `icfg.acma[0]` under `len(icfg.acma) > 0`. -/
+theorem C17_ix_acma (acma : List Bytes) : Ix.acmaHead acma = .ok acma.head? := Ix.acmaHead_refines acma
+
 /-- Not vacuous: on slices that violate the invariants the checked programs do report the panic. -/
 example : Ix.elemsSchemes [] [] [[0]] 0 = .error () := by rfl
 example : Ix.nodeContainsI [[104]] [] [104] 0 false = .error () := by rfl
@@ -490,6 +506,9 @@ transliteration was written from (Gen/Facts.lean carries today's texts in the co
   * `origins.deleteSameSign|func(s []int, v int) []int { i, _ := slices.BinarySearch(s, 0) if v < 0 { return s[i:] } return s[:i] }`
   * `origins.(*node).elems|func(dst *[]string, suf string) { suf = n.suf + suf host := suf if strings.IndexByte(host, hostPortSep) >= 0 { host = "[" + host + "]" } for i, ports := range n.ports { scheme := n.schemes[i] for _, port := range ports { var maybeWildcard string if port < 0 { maybeWildcard = subdomainWildcard port += portOffset } var s string switch port { case 0: s = scheme + schemeHostSep + maybeWildcard + host case wildcardPort: s = scheme + schemeHostSep + maybeWildcard + host + string(hostPortSep) + portWildcard default: s = scheme + schemeHostSep + maybeWildcard + host + string(hostPortSep) + strconv.Itoa(port) } *dst = append(*dst, s) } } for i := range n.children { n.children[i].elems(dst, suf) } }`
   * `origins.(*Tree).Elems|func() []string { var res []string t.root.elems(&res, "") slices.Sort(res) return res }`
+  * `origins.parseHostPattern|func(str, full string) (HostPattern, string, error) { pattern := HostPattern{ Value: str, Kind: peekKind(str), } host, str, ok := fastParseHost(pattern.hostOnly()) if !ok { err := &cfgerrors.UnacceptableOriginPatternError{ Value: full, Reason: "invalid", } return zeroHostPattern, str, err } if pattern.Kind == PatternKindSubdomains { if len(host.Value) > maxHostLen-2 { err := &cfgerrors.UnacceptableOriginPatternError{ Value: full, Reason: "invalid", } return zeroHostPattern, str, err } if host.AssumeIP { err := &cfgerrors.UnacceptableOriginPatternError{ Value: full, Reason: "invalid", } return zeroHostPattern, str, err } } end := len(host.Value) if pattern.Kind == PatternKindSubdomains { end += len(subdomainWildcard) + 1 } pattern.Value = pattern.Value[:end] if host.AssumeIP { ip, err := netip.ParseAddr(host.Value) if err != nil { err := &cfgerrors.UnacceptableOriginPatternError{ Value: full, Reason: "invalid", } return zeroHostPattern, str, err } if ip.Zone() != "" { err := &cfgerrors.UnacceptableOriginPatternError{ Value: full, Reason: "invalid", } return zeroHostPattern, str, err } if ip.Is4In6() { err := &cfgerrors.UnacceptableOriginPatternError{ Value: full, Reason: "prohibited", } return zeroHostPattern, str, err } ipStr := ip.String() if ipStr != host.Value { err := &cfgerrors.UnacceptableOriginPatternError{ Value: full, Reason: "prohibited", } return zeroHostPattern, str, err } if ip.IsLoopback() { pattern.Kind = PatternKindLoopbackIP } else { pattern.Kind = PatternKindNonLoopbackIP } pattern.Value = ipStr return pattern, str, nil } _, err := profile.ToASCII(host.Value) if err != nil { err := &cfgerrors.UnacceptableOriginPatternError{ Value: full, Reason: "prohibited", } return zeroHostPattern, str, err } return pattern, str, nil }`
+  * `origins.(*HostPattern).hostOnly|func() string { if hp.Kind == PatternKindSubdomains { return hp.Value[len(subdomainWildcard)+1:] } return hp.Value }`
+  * `origins.peekKind|func(str string) PatternKind { const wildcardSeq = subdomainWildcard + string(labelSep) if strings.HasPrefix(str, wildcardSeq) { return PatternKindSubdomains } return PatternKindDomain }`
 -/
 def auditedBodies : List Bytes := [
   Spec.b "origins.parseScheme|04a7c4ffcf12f0724767ced4",
@@ -515,7 +534,10 @@ def auditedBodies : List Bytes := [
   Spec.b "origins.(*node).upsertEdge|6d2ec1d4f4cd6a7037f60795",
   Spec.b "origins.deleteSameSign|db1637adf0db2548322c8f8c",
   Spec.b "origins.(*node).elems|80a20c88e601c31687bce10e",
-  Spec.b "origins.(*Tree).Elems|d5dd04a5b28151afd887304a"
+  Spec.b "origins.(*Tree).Elems|d5dd04a5b28151afd887304a",
+  Spec.b "origins.parseHostPattern|335a7de3caddf4806c2efbd3",
+  Spec.b "origins.(*HostPattern).hostOnly|ca60613108eb548d78ef30d1",
+  Spec.b "origins.peekKind|46207a9076ebbaa14bcedcc3"
 ]
 
 /-- **C17 (bodies).** The functions modelled at index level read, today, exactly as they did when the
@@ -553,5 +575,8 @@ theorem C17_ix_bodies : Facts.cors_ixBodies = auditedBodies := by decide +kernel
 #print axioms C17_ix_treeBuild
 #print axioms C17_node_lengths
 #print axioms C17_ix_treeElems
+#print axioms C17_ix_parseHostPattern
+#print axioms C17_ix_hostOnly
+#print axioms C17_ix_acma
 
 end Cors
